@@ -8,7 +8,7 @@
 id=$1; wt=$2
 dir=/verif/seeded/$id
 if [ -n "$wt" ]; then
-  mkdir -p $dir && cp $wt/SEEDED/patch.diff $wt/SEEDED/meta.json $dir/ && cp $wt/SEEDED/demo_test.go $dir/demo_test.go.txt || exit 2
+  mkdir -p $dir && cp $wt/SEEDED/patch.diff $wt/SEEDED/meta.json $dir/ && { cp $wt/SEEDED/demo_test.go.txt $dir/demo_test.go.txt 2>/dev/null || cp $wt/SEEDED/demo_test.go $dir/demo_test.go.txt; } || exit 2
 fi
 [ -f $dir/patch.diff ] || { echo "no $dir/patch.diff"; exit 2; }
 demo_cmd=$(jq -r .demo_cmd $dir/meta.json)
